@@ -495,3 +495,11 @@ func init() {
 		return iface{}
 	}
 }
+
+func init() {
+	// go-containerregistry's validate.Layer recomputes digests through a
+	// goroutine-fed io.Pipe, gzip and sha256: layer validity is assumed.
+	externals["github.com/google/go-containerregistry/pkg/v1/validate.Layer"] = func(fr *frame, args []value) value {
+		return iface{}
+	}
+}
